@@ -54,6 +54,10 @@ def _part1(job):
             # an int parameter whose bounds are WRITTEN as floats (1e2, 20.0): the decoded values are integers all the same
             lo, hi = float(lo), float(hi)
             cnt['int_declarations_with_float_typed_bounds'] = cnt.get('int_declarations_with_float_typed_bounds', 0) + 1
+            if rng.random() < 0.4 and hi - lo >= 2:
+                # ... and fractional ones: the integers inside [min, max] are ceil(min) .. floor(max)
+                lo, hi = lo + 0.5, hi + rng.choice([0.5, -0.25, 0.75])
+                cnt['int_declarations_with_fractional_bounds'] = cnt.get('int_declarations_with_fractional_bounds', 0) + 1
         decls.append({'name': f'p{len(decls)}', 'type': typ, 'min': lo, 'max': hi, 'default': lo})
     for d in decls:
         cnt['declarations'] = cnt.get('declarations', 0) + 1
@@ -107,9 +111,12 @@ def _part1(job):
                     if v < prev - (0 if T is int else 1e-12 * max(1.0, abs(prev))):
                         bad('decoding_not_monotone', f'{d}: letter {ALPHABET[ci - 1]!r} -> {prev!r}, letter {ch!r} -> {v!r}')
                 prev = v
-                if ci == 0 and abs(v - d['min']) > tol:
+                import math as _m
+                end_lo = _m.ceil(d['min']) if T is int else d['min']      # (the smallest / largest value of the declared type
+                end_hi = _m.floor(d['max']) if T is int else d['max']     #  inside the declared range)
+                if ci == 0 and abs(v - end_lo) > tol:
                     bad('first_letter_not_min', f'{d}: first letter -> {v!r}')
-                if ci == len(ALPHABET) - 1 and abs(v - d['max']) > tol:
+                if ci == len(ALPHABET) - 1 and abs(v - end_hi) > tol:
                     bad('last_letter_not_max', f'{d}: last letter -> {v!r}')
             sigs.append(repr((d['type'], round(d['min'], 6), round(d['max'], 6), pos)))
     return {'viol': viol, 'cnt': cnt, 'sigs': sigs, 'sample': {'part': 1, 'declarations_head': decls[:3]} if job['i'] == 0 else None}
